@@ -582,7 +582,7 @@ class StructView(object):
 
     def _null_view(self, f, unit):
         null = ByteStore(self.store.buf, 0, 0, True) if unit == 8 else BitStore(self.store.buf, [], True)
-        return make_view(self.module, f.type, null, unit, self.field_order(f), self, None, f.requires)
+        return make_view(self.module, f.type, null, unit, self.field_order(f), self, const_value(f.size), f.requires)
 
     def _field_view(self, f, store, unit):
         h = self.has(f)
@@ -753,3 +753,73 @@ def view(module, struct_name, params, data):
     s = module.struct(struct_name)
     buf = data if isinstance(data, bytearray) else bytearray(data)
     return StructView(module, s, dict(params), ByteStore(buf, 0, len(buf)))
+
+
+# ---------------------------------------------------------------------------
+# Encoder: fill a buffer so that many structures are Ok (workload helper)
+# ---------------------------------------------------------------------------
+
+def _pick_value(rng, view):
+    t, nb = view.t, view.nbits
+    lo, hi = scalar_range(t, nb)
+    if t.kind == "enum":
+        vals = [v for _n, v in t.ref.values if lo <= v <= hi]
+        if vals and rng.random() < 0.8:
+            return rng.choice(vals)
+        return rng.randint(lo, hi)
+    if t.kind == "flag":
+        return rng.random() < 0.5
+    if t.kind == "float":
+        return rng.choice([0, 1 << (nb - 1), rng.getrandbits(nb), (0x7f800000 if nb == 32 else 0x7ff0000000000000),
+                           (0x3f800000 if nb == 32 else 0x3ff0000000000000), 1])
+    k = rng.random()
+    if k < 0.55:
+        return max(lo, min(hi, rng.choice([0, 1, 2, 3, 4, 5, 8, 10])))
+    if k < 0.65:
+        return rng.choice([lo, hi])
+    return rng.randint(lo, hi)
+
+
+def fill(view, rng, depth=0):
+    """Writes plausible values into every present, complete scalar of `view`."""
+    if depth > 3:
+        return
+    for f in view.s.all_named_fields():
+        if f.kind == "virtual":
+            continue
+        view._memo.clear()
+        if view.has(f) is not True:
+            continue
+        fv = view.field_view(f)
+        _fill_value(fv, rng, depth)
+    view._memo.clear()
+
+
+def _fill_value(fv, rng, depth):
+    if isinstance(fv, ScalarView):
+        if not fv.is_complete():
+            return
+        for _ in range(4):
+            v = _pick_value(rng, fv)
+            raw = encode_scalar(fv.t, v, fv.nbits)
+            if raw is None:
+                continue
+            write_bits(fv.store.buf, fv.addrs(), raw)
+            if fv.read()[0] is True:
+                break
+    elif isinstance(fv, StructView):
+        if not fv.store.null:
+            fill(fv, rng, depth + 1)
+    elif isinstance(fv, ArrayView):
+        c = fv.count()
+        if known(c):
+            for i in range(min(c, 8)):
+                _fill_value(fv.element(i), rng, depth + 1)
+
+
+def encode_random(module, struct_name, params, rng, n):
+    buf = bytearray(rng.getrandbits(8) if rng.random() < 0.3 else 0 for _ in range(n))
+    for _ in range(2):
+        v = view(module, struct_name, params, buf)
+        fill(v, rng)
+    return bytes(buf)
